@@ -102,10 +102,10 @@ Apply(c, t, s0, call, ttlIn, startSize) ==
          LET o == Pick(OutsFind(AllTags, c, t, s, call.k, FALSE, FALSE))
          IN [st |-> ElemFind(c, t, s, call.k, FALSE, o), ret |-> o.val]
     [] call.op = "insr" ->
-         LET x == PickFold(FoldInsert(AllTags, c, t, {[st |-> RangeStart(c, s), acc |-> 0]}, KV(call), call.a, 1))
+         LET x == PickFold(FoldInsert(AllTags, c, t, {[st |-> z, acc |-> 0] : z \in RangeStarts(c, s)}, KV(call), call.a, 1))
          IN [st |-> keep(x.st), ret |-> x.acc]
     [] call.op = "findr" ->
-         LET x == PickFold(FoldFind(AllTags, c, t, {[st |-> RangeStart(c, s), acc |-> <<>>]}, call.ks, FALSE, 1))
+         LET x == PickFold(FoldFind(AllTags, c, t, {[st |-> z, acc |-> <<>>] : z \in RangeStarts(c, s)}, call.ks, FALSE, 1))
          IN [st |-> x.st, ret |-> x.acc]
     [] call.op = "clean" ->
          LET o == [ret |-> s.size - NLive(s), gone |-> {}, sz |-> NLive(s)]
